@@ -150,6 +150,10 @@ class LineRun:
             self.census = Census(self.model)
             try:
                 self.poke()
+                for op in spec.get('pre') or []:
+                    with instrument.external(bus):
+                        build_mod.ScriptAction(self.model.world, op, self.model.log)()
+                    self.count('operations_before_first_run')
                 traces = spec.get('trace') or []
                 for k, d in enumerate(spec['horizon']):
                     tr = bool(traces[k]) if k < len(traces) else False
@@ -159,6 +163,19 @@ class LineRun:
                         self.report('run_window', f'System.simulate({d!r}) called at {t_before!r} ended with the clock at '
                                     f'{self.model.env.now!r}, expected {t_before + d!r}')
                         raise CaseAbort()
+                    if self.prop == 'C01' and not self.failed:
+                        from simprocesd.model.simulation import EventType
+                        left = [e for e in self.model.env._events if not e.cancelled and e.time <= t_before + d
+                                and e.event_type > EventType.TERMINATE]
+                        if left:
+                            e = left[0]
+                            self.report('run_window', f'System.simulate({d!r}) called at {t_before!r} returned with '
+                                        f'{len(left)} live event(s) due inside its window still pending, e.g. time '
+                                        f'{e.time!r} priority {e.event_type!r} {instrument.action_name(e.action)}')
+                            raise CaseAbort()
+                        self.count('system_level_window_checks')
+                        if d == 0:
+                            self.count('zero_length_runs')
                     # the end of a run is a quiescent point too
                     self.before_advance(self.model.env, None)
                     gaps = spec.get('between') or []
